@@ -33,6 +33,9 @@ ASSUMPTIONS = [
 DRIVER = "source_finder.SourceFinder.find_sources_in_image"
 
 MUTANTS = [
+    ("eigenvalue floor taken from the smallest eigenvalue",
+     "AegeanTools/fitting.py", "    minL = 1e-9*L[-1]", "    minL = 1e-9*L[0]",
+     "C01-R18"),
     ("haversine longitude term written as (1 - cos)/2",
      "AegeanTools/angle_tools.py",
      "np.sin(np.radians(dlon) / 2) ** 2",
@@ -255,6 +258,10 @@ def run(ctx):
     # angle_tools.gcd / bear / translate (WCSHelper.pix2sky_ellipse): the
     # formulae must be the exact ones and stay accurate for milli-arcsecond
     # pixels (shared with C17-R1..R3, R6)
+    # covariance weighting (docov, the default): the whitening matrix clips
+    # its eigenvalues relative to the largest one (shared with C04-R13)
+    from .c04 import r13_whitening
+    r13_whitening(ctx, prog, rule="C01-R18")
     from .c17 import formulae as _formulae
     _formulae(ctx, prog, {"R1": "C01-R17", "R2": "C01-R17", "R3": "C01-R17",
                           "R6": "C01-R17"})
